@@ -36,7 +36,7 @@ TIME_CAP = {'quick': 900, 'thorough': 5400}
 REQUIRED_CLASSES = (['be:' + b for b in BACKENDS] + ['dtype:' + d for d in DTYPES] +
                     ['rank:1', 'rank:2', 'rank:3', 'select:query', 'select:tags', 'rename:on', 'rename:off',
                      'units:on', 'units:off', 'opt:define', 'opt:const', 'value:none', 'str:blank', 'str:dquote',
-                     'str:squote', 'int:boundary', 'float:17digits', 'path:dotted', 'has:unit'])
+                     'str:squote', 'str:punctuation', 'int:boundary', 'float:17digits', 'path:dotted', 'has:unit'])
 REQUIRED_MONITORS = (['compiles:' + b for b in BACKENDS] + ['symbols_compared:' + b for b in BACKENDS] +
                      ['exports', 'selection_sets_compared'])
 ASSUMPTIONS = [
@@ -65,6 +65,10 @@ UNITS = ['cm', 'm', 'g/cm3', 'kg', 's', 'km/s', 'K', 'J']
 TAGS = ['sel', 'aux', 'io']
 WORDS = ['Conf', 'run7', 'zeta', 'Xi', 'mu0', 'alpha', 'Beta', 'grid-2', 'v1.5', 'a', 'bb', 'ccc', 'node_7', 'Q', 'x:y', 'up/down']
 LOOKALIKE = ['true', '12', '1.5e3', 'None', '-7', '0']
+# characters with a special meaning for a shell, a C-like compiler or a format string
+SPECIALS = list('!&;*~|%?<>=$`\\(){}^@+,') + [' ! ', ' & ', '; ', '$(', '${', '\\n', '%s', '!!']
+PUNCT = ['Done!', 'go! now', 'a&b', 'x;y', 'p*q', '~home', 'a|b', '100%', 'why?', '<tag>', 'k=v', '$HOME', 'cost $5', '`cmd`', 'back\\slash',
+         'tab(1)', 'semi; colon', 'hash#tag', '!bang', 'a && b', 'x > y', '%d items', '{curly}', 'c:\\dir']
 NAMEPOOL = ['alpha', 'beta', 'gamma_ray', 'num_cells', 'boxSize', 'width', 'height', 'depth', 'rho', 'temp0', 'v1', 'Kappa',
             'eta', 'zeta', 'omega', 'nstep', 'cfl', 'mode', 'label', 'title', 'flagA', 'grid', 'cells', 'limits',
             'offset', 'seedval', 'output', 'xx', 'yy', 'zz', 'stars', 'tracers', 'density', 'primes', 'sizes',
@@ -203,7 +207,7 @@ def render_dip(nodes):
 # ================================================================================ generator
 
 def gen_string(rng, force=None):
-    r = rng.random() if force is None else {'blank': 0.1, 'dquote': 0.3, 'squote': 0.45, 'look': 0.55, 'plain': 0.9}[force]
+    r = rng.random() if force is None else {'blank': 0.1, 'dquote': 0.3, 'squote': 0.45, 'look': 0.55, 'punct': 0.65, 'plain': 0.9}[force]
     w = lambda: rng.choice(WORDS)
     if r < 0.25:
         return ' '.join(w() for _ in range(rng.randint(2, 4)))
@@ -222,6 +226,12 @@ def gen_string(rng, force=None):
         return rng.choice(["it's %s" % w(), "%s's" % w(), "'%s'" % w()])
     if r < 0.60:
         return rng.choice(LOOKALIKE)
+    if r < 0.72 or force == 'punct':
+        if rng.random() < 0.35:
+            return rng.choice(PUNCT)
+        # several special characters at once, so that every one of them is exported in (almost) every run
+        chars = rng.sample(SPECIALS, 4)
+        return ''.join(w() + c for c in chars) + w()
     return w()
 
 
@@ -311,7 +321,7 @@ def gen_env(rng, nnodes, cover=False):
         if cover:
             for dt in DTYPES:
                 plan.append((dt, None))
-            plan += [('str', None)] * 4 + [('str', 1)]
+            plan += [('str', None)] * 6 + [('str', 1)]
             plan += [('bool', 1), ('int', 2), ('float', 3), ('str', 1), ('str', 2), ('int64', 1), ('uint16', 2), ('float32', 1),
                      ('float128', 2), ('float', 2), ('str', 1), ('uint64', 1), ('int16', 3), ('bool', 2)]
         while len(plan) < nnodes:
@@ -320,7 +330,7 @@ def gen_env(rng, nnodes, cover=False):
             plan.append((dt, rank))
         rng.shuffle(plan)
         nodes, classes = [], set()
-        strk = ['blank', 'dquote', 'squote', 'look', 'plain'] if cover else []
+        strk = ['blank', 'dquote', 'squote', 'look', 'punct', 'plain'] if cover else []
         astr = ['plain-equal', 'blank', 'dquote', 'plain'] if cover else []
         none_left = 3 if cover else (1 if rng.random() < 0.5 else 0)
         for i, (dt, rank) in enumerate(plan):
@@ -1265,6 +1275,8 @@ def case_classes(be, opt, sel):
                 cl.add('str:squote'); nontrivial = True
             if any(s in LOOKALIKE for s in flat):
                 cl.add('str:lookalike')
+            if any(s in PUNCT or any(c in s for c in '!&;*~|%?<>=$`\\(){}^@') for s in flat):
+                cl.add('str:punctuation'); nontrivial = True
         if k == 'int':
             lo, hi = INT_RANGE[(bits, uns)]
             if any(v in (lo, hi, lo + 1, hi - 1) or abs(v) >= 2 ** 31 - 1 for v in flat):
